@@ -48,13 +48,41 @@ def parseMeta (j : Json) : Except String Meta := do
     pure (← u.getStr?, n'))
   pure { tags, props, links }
 
+/-- `{"t": "none"|"bool"|"int"|"float"|"str"|"list"|"tuple"|"dict"|"obj"|"objbool"|"objlen", …}` -/
+def parsePyVal (j : Json) : Except String PyVal := do
+  match ← getStr j "t" with
+  | "none" => pure .none
+  | "bool" => pure (.bool (← (← j.getObjVal? "v").getBool?))
+  | "int" => pure (.int (← getInt j "v"))
+  | "float" =>
+    match ← getStr j "k" with
+    | "fin" => pure (.float (.fin (← getInt j "milli")))
+    | "negzero" => pure (.float .negZero)
+    | "nan" => pure (.float .nan)
+    | "inf" => pure (.float (.inf (← getBoolD j "neg")))
+    | k => throw s!"bad float kind {k}"
+  | "str" => pure (.str (← getStr j "v"))
+  | "list" => pure (.list (← getNat j "n"))
+  | "tuple" => pure (.tuple (← getNat j "n"))
+  | "dict" => pure (.dict (← getNat j "n"))
+  | "obj" => pure .obj
+  | "objbool" => pure (.objBool (← (← j.getObjVal? "v").getBool?))
+  | "objlen" => pure (.objLen (← getNat j "n"))
+  | t => throw s!"bad value type {t}"
+
 def parseVis (j : Json) : Except String Vis :=
   match j.getObjVal? "vis" with
   | .error _ => .ok .always
   | .ok .null => .ok .always
   | .ok (.str "always") => .ok .always
   | .ok (.str "hidden") => .ok .hidden
-  | .ok (.bool b) => .ok (.cond b)
+  | .ok (.bool b) => .ok (.cond true (.bool b))
+  | .ok (.obj o) => do
+    let v := Json.obj o
+    let st ← (match v.getObjVal? "self_truthy" with
+      | .ok (.bool b) => pure b
+      | _ => pure true)
+    pure (.cond st (← parsePyVal (← v.getObjVal? "cond")))
   | .ok _ => .error "bad vis"
 
 def parseDisabled (j : Json) : Except String Disabled :=
@@ -181,6 +209,9 @@ def answer (r : Except LoadErr (List Suite)) (decl full : List Entry) (nd : Bool
                           ("declared", entriesJ decl), ("declared_full", entriesJ full),
                           ("no_dunder", .bool nd), ("accepts", acc)]
 
+/-- The real entry points are `core ∘ strip…` (`Model/Loader.lean`): `declared` is the specification on the stripped
+    layout (what the theorems equate the loaded tree with), `declared_full` the specification on the layout as written
+    (what the property demands). -/
 def handle (j : Json) : Except String Json := do
   let entry ← getStr j "entry"
   match entry with
@@ -197,12 +228,17 @@ def handle (j : Json) : Except String Json := do
     let declOf := fun (m : Loader.Module) => match collapsesTo m with
       | some c => underSuite c.head.suiteName (declClsBody c)
       | none => underSuite m.suiteName (declModuleBody m)
-    pure (answer ((loadFile m).map (fun s => [s])) (declOf m) (declOf m0) (noDunderModules [m0]) (some (acceptsModule m)))
+    pure (answer ((loadFile m).map (fun s => [s])) (declOf m) (declOf m0) (noDunderModules [m0])
+      (some (acceptsModule m)))
   | "class" =>
     let c0 ← parseCls (← j.getObjVal? "cls")
     let c := stripCls c0
     pure (answer ((loadClass c).map (fun s => [s])) (underSuite c.head.suiteName (declClsBody c))
       (underSuite c0.head.suiteName (declClsBody c0)) (noDunderCls c0) (some (acceptsCls c)))
+  | "vis" =>
+    -- the decision alone: what the code's expression stores in `.hidden` and what its readers do with it
+    let v ← parseVis j
+    pure (Json.mkObj [("visible", .bool v.visible), ("shown", .bool v.shown), ("hidden_truthy", .bool v.hiddenAttr.truthy)])
   | _ => throw s!"unknown entry {entry}"
 
 def main : IO Unit := loop (wrap handle)
